@@ -32,6 +32,7 @@ def check(ctx):
     interrupted_flag(ctx, P, views, iters)
     event_tables(ctx, P, views)
     schedule_objects(ctx, P)
+    timetable(ctx, P)
     ctx.assume("timetable arithmetic of get_schedule_generator (cycle length, offset) is not decided")
 
 
@@ -365,6 +366,74 @@ def event_tables(ctx, P, views):
                 ob.ok("%s:branch:%s" % (view.name, t))
                 if t in want and calls != [want[t]]:
                     ctx.violation(ob, "R12.event-types", "%s.have_event" % cls2.name, "%r -> %s" % (t, calls), "wrong-handler", "event type %r must run %s" % (t, want[t]), loc(x))
+
+
+def timetable(ctx, P):
+    """structural part of the cyclic timetable: the constructors store the user's table unchanged, initialise() hands exactly that table and the offset to the
+    generator, and the generator's date is offset + boundary[i mod n] + (i div n) * cyclelength with cyclelength = last boundary.  (That this formula is the
+    intended timetable is the arithmetic we do not prove; that the pieces are wired to it is decided here.)"""
+    ob = ctx.ob("TIMET", "Schedule/Slotted keep the declared table and offset unchanged and feed them to the cyclic generator: date = offset + boundaries[i % n] + (i // n) * cyclelength, cyclelength = last boundary")
+    from ..lin import linear
+    sch = P.classes.get("Schedule")
+    slt = P.classes.get("Slotted")
+    if sch is None or slt is None or "get_schedule_generator" not in sch.methods:
+        raise AnalysisError("Schedule / Slotted / get_schedule_generator not found")
+
+    def stores(ci, m, want):
+        fn = ci.methods[m]
+        got = {}
+        for x in ast.walk(fn):
+            if isinstance(x, ast.Assign) and len(x.targets) == 1 and isinstance(x.targets[0], ast.Attribute) and unparse(x.targets[0].value) == "self":
+                got.setdefault(x.targets[0].attr, []).append(unparse(x.value).replace(" ", ""))
+        for attr, val in want.items():
+            ob.ok("%s.%s:%s" % (ci.name, m, attr), "%s.%s: self.%s = %s" % (ci.name, m, attr, got.get(attr)))
+            if got.get(attr) != [val]:
+                ctx.violation(ob, "R5.timetable", "%s.%s" % (ci.name, m), "self.%s = %s" % (attr, got.get(attr)), "table-not-stored-as-declared",
+                              "%s.%s must set self.%s = %s (the declared timetable / offset must reach the generator unchanged)" % (ci.name, m, attr, val), loc(fn))
+    stores(sch, "__init__", {"shift_end_dates": "shift_end_dates", "numbers_of_servers": "numbers_of_servers", "offset": "offset", "cyclelength": "self.shift_end_dates[-1]", "preemption": "preemption"})
+    stores(sch, "initialise", {"c": "0", "next_shift_change_date": "self.offset", "next_c": "self.numbers_of_servers[0]",
+                               "schedule_generator": "self.get_schedule_generator(self.shift_end_dates,self.numbers_of_servers,self.offset)"})
+    stores(slt, "__init__", {"slots": "slots", "slot_sizes": "slot_sizes", "offset": "offset", "cyclelength": "self.slots[-1]", "next_slot_sizes": "[self.slot_sizes[-1]]+self.slot_sizes[:-1]",
+                             "capacitated": "capacitated", "preemption": "preemption", "c": "0"})
+    stores(slt, "initialise", {"schedule_generator": "self.get_schedule_generator(self.slots,self.next_slot_sizes,self.offset)"})
+    if "get_schedule_generator" in slt.methods:
+        ctx.violation(ob, "R5.timetable", "Slotted.get_schedule_generator", "override", "generator-overridden", "Slotted must use the shared cyclic generator", loc(slt.node))
+    gen = sch.methods["get_schedule_generator"]
+    ps = [a.arg for a in gen.args.args][1:]
+    bnd, vals, off = (ps + ["?", "?", "?"])[:3]
+    nname = [unparse(x.targets[0]) for x in ast.walk(gen) if isinstance(x, ast.Assign) and unparse(x.value).replace(" ", "") == "len(%s)" % bnd]
+    nname = nname[0] if nname else "len(%s)" % bnd
+    loops_ = [x for x in ast.walk(gen) if isinstance(x, ast.While)]
+    ys = [x for x in ast.walk(gen) if isinstance(x, ast.Yield)]
+    okk = len(loops_) == 1 and len(ys) == 1 and isinstance(ys[0].value, ast.Tuple) and len(ys[0].value.elts) == 2
+    why = "generator shape (one loop, one yield of (date, size)) not recognised"
+    if okk:
+        body = [x for x in loops_[0].body if not isinstance(x, ast.Pass)]
+        dn = unparse(ys[0].value.elts[0])
+        dates = [x for x in body if isinstance(x, ast.Assign) and unparse(x.targets[0]) == dn]
+        incs = [i for i, x in enumerate(body) if (isinstance(x, ast.AugAssign) and isinstance(x.op, ast.Add) and unparse(x.value) == "1") or
+                (isinstance(x, ast.Assign) and unparse(x.value).replace(" ", "") == unparse(x.targets[0]) + "+1")]
+        idx = unparse(body[incs[0]].target if isinstance(body[incs[0]], ast.AugAssign) else body[incs[0]].targets[0]) if incs else "?"
+        if len(dates) != 1 or len(incs) != 1:
+            okk, why = False, "the loop must compute one date and advance the index by one per step"
+        else:
+            lin = linear(unparse(dates[0].value))
+            want = {off: 1, "%s[%s %% %s]" % (bnd, idx, nname): 1, "%s // %s * self.cyclelength" % (idx, nname): 1}
+            alt = {off: 1, "%s[%s %% %s]" % (bnd, idx, nname): 1, "self.cyclelength * (%s // %s)" % (idx, nname): 1}
+            if lin is None or lin[1] != 0 or lin[0] not in (want, alt):
+                okk, why = False, "date must be %s + %s[%s %% %s] + (%s // %s) * self.cyclelength; found %s" % (off, bnd, idx, nname, idx, nname, unparse(dates[0].value))
+            elif unparse(ys[0].value.elts[1]).replace(" ", "") != "%s[%s%%%s]" % (vals, idx, nname):
+                okk, why = False, "the size announced with a date must be %s[%s %% %s]" % (vals, idx, nname)
+            else:
+                di, yi = body.index(dates[0]), [i for i, x in enumerate(body) if any(y is ys[0] for y in ast.walk(x))][0]
+                if not (di < incs[0] < yi):
+                    okk, why = False, "order must be: date from the current index, advance the index, yield (date, size of the NEXT shift)"
+                start = [x for x in gen.body if isinstance(x, ast.Assign) and unparse(x.targets[0]) == idx]
+                if not start or unparse(start[0].value) != "0":
+                    okk, why = False, "the index must start at 0"
+    ob.ok("Schedule.get_schedule_generator", "date = offset + boundaries[i % n] + (i // n) * cyclelength; yield (date, values[(i+1) % n])")
+    if not okk:
+        ctx.violation(ob, "R5.timetable", "Schedule.get_schedule_generator", "cyclic date formula", "generator-formula", why, loc(gen))
 
 
 def schedule_objects(ctx, P):
